@@ -170,11 +170,7 @@ func sugCoq(in sugInput, o sugObs) (string, bool) {
 }
 
 func genSugInput(r *rand.Rand) sugInput {
-	n := 1 + r.Intn(12)
-	if r.Intn(5) == 0 {
-		n = 1 + r.Intn(2)
-	}
-	vs := genVersions(r, resolve.Maven, n)
+	vs := genVersions(r, resolve.Maven, genCount(r))
 	if r.Intn(25) == 0 {
 		vs = append(vs, "99999999999999999999") // does not parse (number out of range)
 	}
